@@ -10,7 +10,7 @@ In == JsonDeserialize(IOEnv.NTTIN)
 BigDs == In.bigd                      \* sequence of sizes d with tables
 ExtPairs == In.extpairs               \* sequence of <<d, x>>
 Wr(k) == In.W[k + 1]
-Xv(d) == In.X[d + 1]
+Xv(d) == In.X[d + 1]                  \* large sizes: one seeded vector per size (the event's xv is 0)
 Mc(c) == In.M[c + 1]
 Kr(d) == In.K[d + 1]
 Pow2(k) == 2^k
